@@ -169,6 +169,7 @@ pub fn gencfg(prop: &str, tier: &str, rng: &mut Rng) -> GenCfg {
             g.mix.compute_replace = 1;
             g.mix.get = 2;
             g.mix.iter_all = 1;
+            g.mix.clear = 1;
             g.swarm = false;
             g.hashes = vec![HashKind::Identity];
             g.shapes = vec![Shape::Plain, Shape::Plain, Shape::AtThreshold, Shape::AtThreshold, Shape::Unallocated];
@@ -625,6 +626,13 @@ pub fn judge(prop: &str, p: &Program, r: &RunResult, opts: &ExecOpts, js: &mut J
                 }
             }
             out.extend(g);
+            // the growth rule's input: at quiescence the entry counter equals the entries held
+            // (a drifted counter is a spurious or a missing growth waiting to happen)
+            if let Some(rep) = &r.quiescent.inspect {
+                if rep.table_len > 0 && rep.count != rep.nodes as isize {
+                    out.push(Violation { class: "entry-count-drift".into(), detail: format!("at quiescence the entry counter is {} but the table holds {} entries", rep.count, rep.nodes) });
+                }
+            }
         }
         "C15" => {
             let mut hs = oracle::HbStats::default();
